@@ -183,14 +183,16 @@ def lower_body(body, cls=None, methods=(), members=(), objs=None, ptr_objs=None,
             return 'this->' + n
         b = _sub(log, 'R1 member', r'(?<![\w>.])(?<!->)\b([a-z]\w*_)\b(?!\s*\()', member, b)
 
-        # R11 virtual calls through the child/parent link, R1 the links themselves
-        for link, mac in (('inner_pdu', 'TINS_INNER'), ('parent_pdu', 'TINS_PARENT')):
+        # R11 virtual calls through the child/parent link, R1 the links themselves (not inside class PDU itself,
+        # whose own bodies of these accessors are what C12 puts under contract)
+        for link, mac in [] if cls == 'PDU' else (('inner_pdu', 'TINS_INNER'), ('parent_pdu', 'TINS_PARENT')):
             b = _rewrite_calls(b, r'(?<![\w>.:])(?<!->)\b' + link + r'\s*\(\s*\)\s*->\s*(\w+)\s*(?=\()',
                                lambda m, a, mac=mac: 'PDU_v_%s(%s(this)%s)' % (m.group(1), mac, (', ' + a) if a.strip() else ''), log, 'R11 virtual call')
             b = _sub(log, 'R1 link', r'(?<![\w>.:])(?<!->)\b' + link + r'\s*\(\s*\)', mac + '(this)', b)
         # inner_pdu(x): the re-linking setter (its own contract is under C12)
-        b = _rewrite_calls(b, r'(?<![\w>.:])(?<!->)\binner_pdu\s*(?=\()',
-                           lambda m, a: ('PDU_set_inner(&this->pdu_base_, %s)' % a) if a.strip() else None, log, 'R1 inner_pdu(x)')
+        if cls != 'PDU':
+            b = _rewrite_calls(b, r'(?<![\w>.:])(?<!->)\binner_pdu\s*(?=\()',
+                               lambda m, a: ('PDU_set_inner(&this->pdu_base_, %s)' % a) if a.strip() else None, log, 'R1 inner_pdu(x)')
         # R1 own methods
         def own(m, args):
             name = m.group(1)
